@@ -505,6 +505,38 @@ Lemma f11_reset_accepted :
   accepted11 w11_reset 4 (XVal (RAtom (AStr (bs "DEFAULT")))).
 Proof. split; [accept|split; accept]. Qed.
 
+(* an announced value the declared type cannot read (NumCPUs=auto) next to readable ones: outside the
+   envelope as it stands; settled (Spec.C11.settle) the event keeps its other lines, the unreadable
+   option keeps its view (2), the others read as announced *)
+Definition w11_unparsable := p_input p_store (Some [])
+  [OpEvent [(bs "NumCPUs", Some (bs "auto")); (bs "Nickname", Some (bs "carol")); (bs "Log", Some (bs "err stderr"))];
+   OpRead (bs "NumCPUs"); OpRead (bs "Nickname"); OpRead (bs "Log");
+   OpEvent [(bs "NumCPUs", Some (bs "x")); (bs "Nickname", Some (bs "dave"))]; OpRead (bs "NumCPUs")].
+Lemma f11_unparsable_settled :
+  (c11_scope w11_unparsable = false) /\
+  (i_ops (settle w11_unparsable) =
+    [OpEvent [(bs "Nickname", Some (bs "carol")); (bs "Log", Some (bs "err stderr"))];
+     OpRead (bs "NumCPUs"); OpRead (bs "Nickname"); OpRead (bs "Log"); OpEvent [(bs "Nickname", Some (bs "dave"))]; OpRead (bs "NumCPUs")]) /\
+  accepted11 (settle w11_unparsable) 1 (XVal (RAtom (AInt 2))) /\
+  accepted11 (settle w11_unparsable) 2 (XVal (RAtom (AStr (bs "carol")))) /\
+  accepted11 (settle w11_unparsable) 3 (XVal (RList true [bs "err stderr"])) /\
+  accepted11 (settle w11_unparsable) 5 (XVal (RAtom (AInt 2))).
+Proof. split; [vm_compute; reflexivity|]. split; [vm_compute; reflexivity|].
+       split; [accept|split; [accept|split; accept]]. Qed.
+
+(* settling changes nothing where nothing is unreadable, and is idempotent *)
+Lemma settle_op_idem : forall opts o, settle_op opts (settle_op opts o) = settle_op opts o.
+Proof.
+  intros opts o; destruct o; cbn [settle_op]; try reflexivity.
+  f_equal. induction items as [|it items IH]; cbn [filter]; [reflexivity|].
+  destruct (negb (unparsable_item opts it)) eqn:E; cbn [filter]; [rewrite E, IH; reflexivity|exact IH].
+Qed.
+Lemma settle_idem : forall i, settle (settle i) = settle i.
+Proof.
+  intros i; unfold settle; cbn [i_table i_store i_defaults i_pre i_ops]. f_equal.
+  rewrite map_map. apply map_ext. intros o; apply settle_op_idem.
+Qed.
+
 (* the second way to reach the attached state: TorConfig(), assignments (not validated, never sent),
    attach_protocol().  Afterwards the view is Tor's configuration, exactly as with TorConfig(protocol) *)
 Definition w11_attach :=
